@@ -52,7 +52,7 @@ ASSUMPTIONS = ["commit dates are after 2025-07-04 (OLDEST_AI_BLAME_DATE): older 
                "line texts are pairwise distinct in the whole scenario"]
 
 # templates whose oracle (blame at HEAD == truth) holds on the unchanged tree
-ROBUST = ["amend_msg", "amend_bottom", "rebase_fast", "cherry_pick_fast", "slow_simple", "reset_soft", "reset_mixed",
+ROBUST = ["amend_msg", "amend_bottom", "rebase_fast", "cherry_pick_fast", "cherry_pick_full_journal", "slow_simple", "reset_soft", "reset_mixed",
           "stash_pop", "merge_squash", "switch_carry", "rebase_conflict_abort", "cherry_pick_conflict_abort",
           "commit_dry_run", "rebase_fail", "rebase_conflict_continue_inert"]
 
@@ -236,7 +236,7 @@ def scenario(args):
                 w.git("commit", "-q", "--amend", "--no-edit")
             else:
                 w.git("commit", "-q", "--amend", "-m", "new message")
-        elif tmpl in ("rebase_fast", "cherry_pick_fast", "slow_simple"):
+        elif tmpl in ("rebase_fast", "cherry_pick_fast", "cherry_pick_full_journal", "slow_simple"):
             w.git("switch", "-q", "-c", "feature")
             w.cur = "feature"
             fast = tmpl != "slow_simple"
@@ -251,7 +251,15 @@ def scenario(args):
             for _ in range(r.range(1, 2)):
                 w.op_edit(actor="H", path=r.pick(shared), region="top", kinds=("ins",))
                 w.op_commit()
-            if tmpl == "cherry_pick_fast":
+            if tmpl == "cherry_pick_full_journal":
+                # a long-lived repository: the journal already holds its maximum number of events (newest first);
+                # the operation's own Start event must still be the one that is kept
+                jp = os.path.join(sim.repo, ".git", "ai", "rewrite_log")
+                old_lines = [l for l in open(jp).read().split("\n") if l.strip()] if os.path.exists(jp) else []
+                filler = ['{"commit":{"base_commit":"%040x","commit_sha":"%040x"}}' % (k_, k_ + 1) for k_ in range(260)]
+                with open(jp, "w") as jf:
+                    jf.write("\n".join(old_lines + filler) + "\n")
+            if tmpl in ("cherry_pick_fast", "cherry_pick_full_journal"):
                 rc, out, _ = sim.realgit("rev-list", "--reverse", "main..feature")
                 rc, _, err = w.git("cherry-pick", *out.split(), env_extra={"GIT_EDITOR": "true"})
             else:
@@ -288,7 +296,7 @@ def scenario(args):
                 args_ = ["rebase"]
                 if tmpl.startswith("rebase_i"):
                     mode = tmpl.split("_")[-1]
-                    import os, shlex
+                    import shlex
                     from .world import SEQ_EDITOR
                     ed = os.path.join(sim.base, "seqed.py")
                     open(ed, "w").write(SEQ_EDITOR % mode)
